@@ -96,8 +96,12 @@ def sections(ctx, out):
     cases = []
     for _ in range(ctx.n(120, 12_000)):
         body, t = [], 0
-        for _ in range(rng.randint(2, 14)):
+        long = rng.random() < 0.2  # long sections where lines of other shapes outnumber the canonical ones
+        for _ in range(rng.randint(40, 90) if long else rng.randint(2, 14)):
             t += rng.randint(1, 200)
+            if long and rng.random() < 0.6:
+                body.append(rng.choice([f"  {t} = S 64 5", f"  {t} = N 8 0", f"  {t} = E two words", f"  {t} = S 0 1", f"  {t} = E [mix 0 drums0]",
+                                        f"  {t} = N 9 10", f"  {t} = S 2", f"  {t} = B 120000"]))
             kind = rng.choice(["note", "sp", "te"])
             if kind == "note":
                 line = f"  {t} = N {rng.randint(0, 7)} {rng.choice([0, rng.randint(1, 500)])}"
